@@ -34,6 +34,7 @@ RULE = (
     "threads observed, or Parquet input; distinct = (table seed, variant)."
     " Every sixth table is rescored with ensemble=True (baseline and variants)."
     " Every seventh table has a retention-time key column that is empty for 20% of the spectra."
+    " Every fourth table has three feature columns with a few missing values."
 )
 ASSUMPTIONS = [
     "tolerances: scores rtol 1e-9 for the closed-form learner, 2e-3 for LinearSVC on text-vs-Parquet only (its iterative solver, tol 1e-4, amplifies the 1-ulp feature differences of pandas' float parser; differences up to 5e-5 were observed); q-values rtol 1e-5 (float32 / text formatting); PEPs rtol 1e-6 when the scores of both runs are bit-identical, else not compared numerically (triqler's spline fit amplifies a 1-ulp score difference to PEP differences of several percent)",
@@ -174,6 +175,20 @@ def make_table(rng, case):
         specs = tab["truth"]["spec"].values
         gone = set(np.unique(specs)[rng.random(len(np.unique(specs))) < 0.2].tolist())
         tab["df"].loc[[s_ in gone for s_ in specs], "ret_time"] = np.nan
+    if case["index"] % 4 == 2:
+        # feature columns with a few missing values (early / late / anywhere in the file): read_pin drops them,
+        # whatever the scan chunk sizes
+        df = tab["df"]
+        pos = list(df.columns).index("Peptide")
+        n = len(df)
+        for j, (nm, where) in enumerate([("gap_early", "early"), ("zz_gap_late", "late"), ("Gap_any", "any")]):
+            col = rng.normal(size=n)
+            k = int(rng.integers(1, 4))
+            idx = {"early": rng.integers(0, max(1, n // 10), size=k), "late": rng.integers(n - max(1, n // 10), n, size=k),
+                   "any": rng.integers(0, n, size=k)}[where]
+            col[idx] = np.nan
+            df.insert(pos - j, nm, col)
+        tab["df"] = df
     return tab
 
 
